@@ -198,6 +198,21 @@ class C02Episode(Episode):
                           'list reply is %r' % (name, o.get('pids')),
                           once=('l', r.idx, name))
 
+    def collect(self):
+        try:
+            if self.aborted == 'daemon_hung' and self.world is not None:
+                # the loop is dead: the stop under way never completes, no
+                # later one is ever served
+                h = self.world.sim.hung or {}
+                self.aborted = None
+                self.viol('daemon_dead_inside_stop',
+                          'the event loop is dead (%s waits for live pid %s): '
+                          'no stop completes any more'
+                          % (' <- '.join((h.get('stack') or [])[:5]),
+                             h.get('pid')), once='hung')
+        finally:
+            super().collect()
+
     def final_gone(self):
         self.judge_probes()
         k = self.world.kernel
@@ -264,6 +279,10 @@ class C02(Prop):
             # the job
             s0 = rng.randrange(1, 8)
             cfg['signal_fail'] = {str(s0): 1}
+            if rng.random() < 0.4:
+                # ... it is the first SIGKILL that is refused (a worker that
+                # sits out the grace period, and whoever waits for its end)
+                cfg['signal_fail'] = {'-9': 1}
         if rng.random() < 0.15:
             # captured output: pipes and redirector registrations whose
             # descriptor numbers are reused by the next worker, possibly of
@@ -276,6 +295,23 @@ class C02(Prop):
         ops = gen.gen_history(rng, cfg, n, self.REQS, self.WEIGHTS,
                               second_req_kinds=['incr', 'decr', 'kill',
                                                 'signal', 'status', 'stop'])
+        if cfg.get('signal_fail') == {'-9': 1}:
+            # ... met first by a kill request of a watcher whose workers
+            # ignore the stop signal, with a stop of the same watcher arriving
+            # during the grace period
+            wc0 = cfg['watchers'][0]
+            wc0['mix'] = [{'p': 1, 'label': 'stubborn', 'ignore': 'all',
+                           'latency': [0.001]}]
+            gt = rng.choice([0.2, 0.5])
+            ops[0:0] = [
+                {'op': 'req', 'cmd': 'kill', 'w': 0, 'waiting': True,
+                 'props': {'signum': 15, 'graceful_timeout': gt},
+                 'place': 'now'},
+                {'op': 'req', 'cmd': rng.choice(['stop', 'stop', 'restart']),
+                 'w': 0, 'props': {}, 'waiting': True,
+                 'place': rng.choice([{'calls': 10}, {'dt': 0.1},
+                                      {'steps': 3}])},
+                {'op': 'wait', 'kind': 'replies'}]
         if cfg.get('signal_fail'):
             for op in ops:
                 if op['op'] == 'req' and op['cmd'] in ('quit', 'rm'):
